@@ -549,6 +549,12 @@ func (x *Exec) applyContract(st *State, fn *ssa.Function, spec *contract.FuncSpe
 	if spec.Attrs["noreturn"] != "" {
 		return nil, false
 	}
+	for _, d := range strings.Fields(spec.Attrs["noreturn_for"]) {
+		if d == x.Driver {
+			st.Died = true
+			return nil, false // the unwinding driver stops the path here
+		}
+	}
 	if x.LogCalls {
 		rec := CallRec{Fn: specKey(fn, spec), Args: args, Res: res}
 		for _, a := range args {
